@@ -547,3 +547,11 @@ Definition config_append_keepflag (self other : config_map) : config_map :=
   fold_left (fun m kv => cm_set_keepflag m (fst kv) (snd kv)) other self.
 (* the `config` the linter sees *)
 Definition config_of (m : config_map) : config := cm_get m.
+
+(* Mutation (seeded change C19-m5): Project::analyse skips the linters when no unit was re-analysed;
+   the cached diagnostics of the unchanged units are then not emitted in that round. *)
+Definition lint_skip_empty (c : cache) (rt : design_root) (cfg : config) (analyzed : list key) : cache * list diag :=
+  match analyzed with
+  | [] => (c, [])
+  | _ => lint c rt cfg analyzed
+  end.
